@@ -124,11 +124,22 @@ func c14Setup() *c14Env {
 }
 
 // op returns a freshly parsed and validated operation `query Q($u: Int = 3, $v: T [= default]) { t<i>(x: $v) u: t0(x: $u) }`.
+// bareDefault: set while the "absent+bare-default" mode runs — the default literal is then
+// the innermost single value, which input coercion must wrap into the declared list type.
+var c14BareDefault bool
+
 func (e *c14Env) op(i int, withDefault bool) *ast.OperationDefinition {
 	t := e.types[i]
 	def := ""
 	if withDefault {
 		l, _ := defaultLit(t)
+		if c14BareDefault {
+			n := t
+			for n.Elem != nil {
+				n = n.Elem
+			}
+			l, _ = defaultLit(&refcoerce.Type{Named: n.Named})
+		}
 		def = " = " + l
 	}
 	q := fmt.Sprintf("query Q($u: Int = 3, $v: %s%s) { t%d(x: $v) u: t0(x: $u) }", t.String(), def, i)
@@ -275,6 +286,7 @@ func goRepr(v any) string {
 }
 
 type c14Input struct {
+	Bare    bool   `json:"bare_default,omitempty"`
 	TypeIdx int    `json:"type_index"`
 	Type    string `json:"type"`
 	Mode    string `json:"mode"` // supplied | supplied+default | absent | absent+default | null | null+default
@@ -294,7 +306,9 @@ func c14Replay(c *explore.Ctx, s *explore.SubStats, in c14Input) {
 		c14Case(c, s, e, in.TypeIdx, in.Mode, v, true, ch.Choices())
 		return
 	}
+	c14BareDefault = in.Bare
 	c14Case(c, s, e, in.TypeIdx, in.Mode, nil, false, nil)
+	c14BareDefault = false
 }
 
 func c14Case(c *explore.Ctx, s *explore.SubStats, e *c14Env, ti int, mode string, val any, supplied bool, choices []int) {
@@ -313,7 +327,10 @@ func c14Case(c *explore.Ctx, s *explore.SubStats, e *c14Env, ti int, mode string
 	default:
 		repr = "(absent)"
 	}
-	in := c14Input{ti, t.String(), mode, choices, repr}
+	in := c14Input{c14BareDefault, ti, t.String(), mode, choices, repr}
+	if c14BareDefault {
+		repr += " (default written as a single value)"
+	}
 	rendered := fmt.Sprintf("$v: %s  mode=%s  value=%s", t.String(), mode, repr)
 	explore.Crumb(s.Name, rendered)
 	s.Executions++
@@ -368,7 +385,7 @@ func c14Case(c *explore.Ctx, s *explore.SubStats, e *c14Env, ti int, mode string
 		}
 	case withDefault:
 		_, dv := defaultLit(t)
-		if !present || !reflect.DeepEqual(normNum(got), normNum(dv)) {
+		if !present || !reflect.DeepEqual(normNum(normAny(got)), normNum(normAny(dv))) {
 			bad("coerce/default-not-applied shape="+shape, fmt.Sprintf("absent variable with default: expected %s, got %s (present=%v)", goRepr(dv), goRepr(got), present))
 		}
 	default:
@@ -492,7 +509,7 @@ func runC14(c *explore.Ctx) {
 		s.WallS = time.Since(t0).Seconds()
 	}
 	s = c.Sub("absent-null", fmt.Sprintf("all %d variable types × {absent, absent with default, explicit null, explicit null with default}", len(e.types)),
-		"absent non-null without default and explicit null for non-null are errors; absent with default yields the default; explicit null stays null", "every case")
+		"absent non-null without default and explicit null for non-null are errors; absent with default yields the default (also when the default literal is a single value for a list type: it comes back wrapped to the declared depth); explicit null stays null", "every case")
 	if s != nil {
 		for ti := range e.types {
 			if ti%c.NShards != c.Shard {
@@ -502,6 +519,14 @@ func runC14(c *explore.Ctx) {
 				s.States++
 				s.Transitions++
 				c14Case(c, s, e, ti, mode, nil, false, nil)
+			}
+			if e.types[ti].Elem != nil {
+				// the default is written as a single value: coercion must wrap it to the list type
+				c14BareDefault = true
+				s.States++
+				s.Transitions++
+				c14Case(c, s, e, ti, "absent+default", nil, false, nil)
+				c14BareDefault = false
 			}
 		}
 	}
